@@ -22,4 +22,5 @@ def check(run):
     from checks.main import reflection_bounded
     reflection_bounded(run)
     run.verify_functions([R + '__recognize_user_class'] + LOADER + [
-        'yatiml/representers.py::Representer.__sweeten'])
+        'yatiml/representers.py::Representer.__sweeten',
+        'yatiml/representers.py::Representer.__call__'])
